@@ -5,7 +5,7 @@
    transactions see. The full statement is FALSE of the code (three refutations below, reproduced on the real
    code); what holds for every transaction, state and crash point is the first theorem. *)
 From Coq Require Import List ZArith NArith Bool.
-From SopVerif Require Import Proto ProtoProofs ProtoCrash Corr.Proto Corr.C08.
+From SopVerif Require Import Proto ProtoProofs ProtoSuccess ProtoCrash ProtoRecover Corr.Proto Corr.C08.
 Import ListNotations.
 Local Open Scope N_scope.
 
@@ -53,3 +53,62 @@ Theorem C08_next_writer_blocked_refuted :
     /\ (exists d2 tr2, run t d' None = (Conflicted, d2, tr2)).
 Proof. exact crash_leaves_claim_blocking_next_writer_refuted. Qed.
 Print Assumptions C08_next_writer_blocked_refuted.
+
+(* PARTIAL ("after the recovery the system performs"): the recovery the code CONTAINS for a torn phase-2 update —
+   priorityRollback / doPriorityRollbacks write the images of the priority log back — restores, for every consistent
+   transaction and EVERY subset of flipped handles that reached the registry before the crash, the registry of the
+   end of phase 1 exactly: every node that existed before the commit resolves to the blob and version it had
+   (nothing of the transaction is visible, earlier commits intact). Partial because that recovery is not started on
+   the public path of the unchanged code (C09_public_path_never_recovers), so the torn state of
+   C08_torn_flip_refuted is what later transactions see. The premise "the log holds the pre-activation images"
+   is the model's PlogAdd payload, compared with the implementation's on every run (Corr.Proto.call_eqb/disk_eqb). *)
+Theorem C08_torn_flip_recovered_partial :
+  forall t d written, SW d t -> wf_disk d -> W d t ->
+  exists d1, torn_flip_sub t d written = Some d1 /\
+  exists d2, recover d1 = Some d2 /\
+    (forall l, lookup (reg d2) l = lookup (reg4 d t) l) /\ plog d2 = None /\
+    forall l h0, lookup (reg d) l = Some h0 ->
+      resolve d2 l = Some (active h0)
+      /\ (exists h, lookup (reg d2) l = Some h /\ ver h = ver h0)
+      /\ (In (active h0) (blobs d) -> In (active h0) (blobs d2)).
+Proof.
+  intros t d written HS Hwf HW.
+  destruct (torn_flip_sub_defined d t HS written) as [d1 H1]. exists d1. split; [exact H1|].
+  destruct (recover_defined d1) as [d2 H2]. exists d2. split; [exact H2|].
+  destruct (torn_flip_recover_registry d t HS written d1 d2 H1 H2) as [Hreg [_ Hpl]].
+  split; [exact Hreg|]. split; [exact Hpl|].
+  exact (torn_flip_recover_view d t HS written d1 d2 Hwf HW H1 H2).
+Qed.
+Print Assumptions C08_torn_flip_recovered_partial.
+
+(* the same for the prefix form of the torn update used in C08_torn_flip_refuted *)
+Theorem C08_torn_prefix_recovered_partial :
+  forall t d j d1 d2, SW d t -> wf_disk d -> W d t -> torn_flip t d j = Some d1 -> recover d1 = Some d2 ->
+  forall l h0, lookup (reg d) l = Some h0 ->
+    resolve d2 l = Some (active h0)
+    /\ (exists h, lookup (reg d2) l = Some h /\ ver h = ver h0)
+    /\ (In (active h0) (blobs d) -> In (active h0) (blobs d2)).
+Proof. intros t d j d1 d2 HS Hwf HW. exact (torn_prefix_recover_view d t HS j d1 d2 Hwf HW). Qed.
+Print Assumptions C08_torn_prefix_recovered_partial.
+
+(* hypotheses satisfiable; the torn flip of the concrete transaction recovered for all 8 subsets; and what happens
+   if the log held the activated images instead (recovery completes the flip of a commit that never committed) *)
+Example C08_recovery_nonvacuous : SW d_ex t_ex /\ wf_disk d_ex /\ W d_ex t_ex.
+Proof. exact recover_hyps_nonvacuous. Qed.
+Example C08_torn_flip_recovered_ex :
+  forallb (fun written =>
+    match torn_flip_sub t_c d_c written with
+    | Some d1 => match recover d1 with
+                 | Some d2 => list_optN_eqb (view_of d2) old_view_staged
+                 | None => false
+                 end
+    | None => false
+    end) [[]; [10]; [13]; [11]; [10; 13]; [10; 11]; [13; 11]; [10; 13; 11]] = true
+  /\ (exists d1, torn_flip_sub t_c d_c [10] = Some d1 /\ resolve d1 10 = Some 30 /\ resolve d1 13 = Some 13).
+Proof. exact torn_flip_recovered_ex. Qed.
+Example C08_activated_images_do_not_restore :
+  exists d1 d2 s1 s2, torn_flip_sub t_c d_c [10] = Some d1
+    /\ phase1 t_c (init d_c None) = (Go, s1) /\ log finalizeCommit s1 = (true, s2)
+    /\ recover_with (to_flip t_c s2) d1 = Some d2
+    /\ resolve d2 10 = Some 30 /\ resolve d2 13 = Some 33.
+Proof. exact activated_images_do_not_restore. Qed.
